@@ -1,6 +1,6 @@
 ----------------------------- MODULE PatternParse -----------------------------
-(* A reference parser for local-time patterns without designator fields: what a text    *)
-(* parses to under a pattern text, as the pattern documentation states it.                *)
+(* A reference parser for local-time patterns without designator fields, and for offset  *)
+(* patterns: what a text parses to under a pattern text, as the documentation states it.   *)
 (*   Tokens(t):      the pattern text cut into steps (PatternGrammar decides beforehand     *)
 (*                   that it is a pattern): numeric fields with their widths, fractions,     *)
 (*                   the optional fraction with its own separator, separators, literals.       *)
@@ -21,21 +21,24 @@ QuotedChars(t, pos, q) ==
   IF pos > Len(t) \/ t[pos] = q THEN <<>>
   ELSE IF t[pos] = BS THEN <<[k |-> "lit", c |-> t[pos + 1]]>> \o QuotedChars(t, pos + 2, q)
   ELSE <<[k |-> "lit", c |-> t[pos]]>> \o QuotedChars(t, pos + 1, q)
-RECURSIVE TokensFrom(_, _)
-TokensFrom(t, pos) ==
+\* (in offset patterns an unquoted + is the sign that is always written, an unquoted - the sign written for negative values only,
+\*  and a period or semicolon is just itself)
+RECURSIVE TokensFrom(_, _, _)
+TokensFrom(typ, t, pos) ==
   IF pos > Len(t) THEN <<>>
   ELSE LET ch == t[pos] IN
-    IF ch = Q1 \/ ch = Q2 THEN QuotedChars(t, pos + 1, ch) \o TokensFrom(t, QuoteEnd(t, pos + 1, ch))
-    ELSE IF ch = BS THEN <<[k |-> "lit", c |-> t[pos + 1]]>> \o TokensFrom(t, pos + 2)
-    ELSE IF ch = PCT THEN TokensFrom(t, pos + 1)
-    ELSE IF (ch = Cp(".") \/ ch = Cp(";")) /\ pos + 1 <= Len(t) /\ t[pos + 1] = Cp("F")
-         THEN LET n == RunLen(t, pos + 1, Cp("F")) IN <<[k |-> "optfrac", n |-> n, comma |-> (ch = Cp(";"))]>> \o TokensFrom(t, pos + 1 + n)
-    ELSE IF ch = Cp(";") THEN <<[k |-> "dotcomma"]>> \o TokensFrom(t, pos + 1)
-    ELSE IF ch = 58 THEN <<[k |-> "tsep"]>> \o TokensFrom(t, pos + 1)
-    ELSE IF ch \in {Cp("H"), Cp("h"), Cp("m"), Cp("s"), Cp("f"), Cp("F"), Cp("t")}
-         THEN LET n == RunLen(t, pos, ch) IN <<[k |-> "field", c |-> ch, n |-> n]>> \o TokensFrom(t, pos + n)
-    ELSE <<[k |-> "lit", c |-> ch]>> \o TokensFrom(t, pos + 1)
-Tokens(t) == TokensFrom(t, 1)
+    IF ch = Q1 \/ ch = Q2 THEN QuotedChars(t, pos + 1, ch) \o TokensFrom(typ, t, QuoteEnd(t, pos + 1, ch))
+    ELSE IF ch = BS THEN <<[k |-> "lit", c |-> t[pos + 1]]>> \o TokensFrom(typ, t, pos + 2)
+    ELSE IF ch = PCT THEN TokensFrom(typ, t, pos + 1)
+    ELSE IF typ = "Offset" /\ (ch = 43 \/ ch = 45) THEN <<[k |-> "sign", always |-> (ch = 43)]>> \o TokensFrom(typ, t, pos + 1)
+    ELSE IF typ # "Offset" /\ (ch = Cp(".") \/ ch = Cp(";")) /\ pos + 1 <= Len(t) /\ t[pos + 1] = Cp("F")
+         THEN LET n == RunLen(t, pos + 1, Cp("F")) IN <<[k |-> "optfrac", n |-> n, comma |-> (ch = Cp(";"))]>> \o TokensFrom(typ, t, pos + 1 + n)
+    ELSE IF typ # "Offset" /\ ch = Cp(";") THEN <<[k |-> "dotcomma"]>> \o TokensFrom(typ, t, pos + 1)
+    ELSE IF ch = 58 THEN <<[k |-> "tsep"]>> \o TokensFrom(typ, t, pos + 1)
+    ELSE IF ch \in (IF typ = "Offset" THEN {Cp("H"), Cp("m"), Cp("s")} ELSE {Cp("H"), Cp("h"), Cp("m"), Cp("s"), Cp("f"), Cp("F"), Cp("t")})
+         THEN LET n == RunLen(t, pos, ch) IN <<[k |-> "field", c |-> ch, n |-> n]>> \o TokensFrom(typ, t, pos + n)
+    ELSE <<[k |-> "lit", c |-> ch]>> \o TokensFrom(typ, t, pos + 1)
+Tokens(t) == TokensFrom("LocalTime", t, 1)
 \* patterns this parser speaks about: local-time patterns (by the grammar) without designator fields
 Parsable(t) == Len(t) > 1 /\ Grammar("LocalTime", t) = "Ok" /\ \A i \in 1..Len(Tokens(t)) : Tokens(t)[i].k # "field" \/ Tokens(t)[i].c # Cp("t")
 
@@ -54,6 +57,11 @@ ParseFrom(toks, i, x, pos, acc, tsep) ==
   ELSE LET tk == toks[i] IN
     CASE tk.k = "lit" -> IF pos <= Len(x) /\ x[pos] = tk.c THEN ParseFrom(toks, i + 1, x, pos + 1, acc, tsep) ELSE Fail
       [] tk.k = "tsep" -> IF StartsWith(x, pos, tsep) THEN ParseFrom(toks, i + 1, x, pos + Len(tsep), acc, tsep) ELSE Fail
+      [] tk.k = "sign" ->
+           \* a minus sign is always accepted; a plus sign only where the sign is always written; no sign at all only where it is not
+           IF pos <= Len(x) /\ x[pos] = 45 THEN ParseFrom(toks, i + 1, x, pos + 1, [acc EXCEPT !.neg = TRUE, !.used = @ \cup {"sign"}], tsep)
+           ELSE IF pos <= Len(x) /\ x[pos] = 43 THEN (IF tk.always THEN ParseFrom(toks, i + 1, x, pos + 1, [acc EXCEPT !.used = @ \cup {"sign"}], tsep) ELSE Fail)
+           ELSE IF tk.always THEN Fail ELSE ParseFrom(toks, i + 1, x, pos, [acc EXCEPT !.used = @ \cup {"sign"}], tsep)
       [] tk.k = "dotcomma" -> IF pos <= Len(x) /\ x[pos] \in {46, 44} THEN ParseFrom(toks, i + 1, x, pos + 1, acc, tsep) ELSE Fail
       [] tk.k = "optfrac" ->
            \* only when its separator stands here: then at least one digit, at most n
@@ -81,10 +89,21 @@ ParseFrom(toks, i, x, pos, acc, tsep) ==
 \* the value: fields not in the pattern come from the template value, midnight
 Parse(t, x, tsep) ==
   IF Len(x) = 0 THEN Fail ELSE          \* the empty text is refused by every pattern, also by one of optional fields only
-  LET r == ParseFrom(Tokens(t), 1, x, 1, [h24 |-> 0, h12 |-> 0, mi |-> 0, s |-> 0, frac |-> 0, used |-> {}], tsep) IN
+  LET r == ParseFrom(Tokens(t), 1, x, 1, [h24 |-> 0, h12 |-> 0, mi |-> 0, s |-> 0, frac |-> 0, neg |-> FALSE, used |-> {}], tsep) IN
   IF ~r.ok THEN Fail
   ELSE LET a == r.acc IN
        IF {"H", "h"} \subseteq a.used /\ a.h12 % 12 # a.h24 % 12 THEN Fail
        ELSE LET hour == IF "H" \in a.used THEN a.h24 ELSE IF "h" \in a.used THEN a.h12 % 12 ELSE 0 IN
             [ok |-> TRUE, nod |-> <<hour * 3600 + a.mi * 60 + a.s, a.frac>>]
+
+\* ---- offsets: sign, hours 0..23, minutes, seconds; the whole within 18 hours; a pattern beginning with Z also reads "Z" as zero ----
+OffsetParsable(t) == Len(t) > 1 /\ Grammar("Offset", t) = "Ok"
+ParseOffset(t, x, tsep) ==
+  IF Len(x) = 0 THEN Fail
+  ELSE IF t[1] = 90 /\ x = <<90>> THEN [ok |-> TRUE, nod |-> <<0, 0>>]
+  ELSE LET toks == TokensFrom("Offset", IF t[1] = 90 THEN SubSeq(t, 2, Len(t)) ELSE t, 1)
+           r == ParseFrom(toks, 1, x, 1, [h24 |-> 0, h12 |-> 0, mi |-> 0, s |-> 0, frac |-> 0, neg |-> FALSE, used |-> {}], tsep) IN
+       IF ~r.ok THEN Fail
+       ELSE LET secs == r.acc.h24 * 3600 + r.acc.mi * 60 + r.acc.s IN
+            IF secs > 64800 THEN Fail ELSE [ok |-> TRUE, nod |-> <<IF r.acc.neg THEN -secs ELSE secs, 0>>]
 =============================================================================
